@@ -662,7 +662,7 @@ def settings_variants(ex, inv, family):
     return k
 
 
-def readonly_call(ex, family, method):
+def readonly_call(ex, family, method, history=False):
     from goodwe.exceptions import InverterError
     install_hooks()
     ex.contracts = {k: v for k, v in ex.contracts.items() if not k.endswith(".read")}
@@ -686,6 +686,33 @@ def readonly_call(ex, family, method):
         args = [bool(ex.choose(2, tag="include_emulated"))]
         ex.inputs["args"] = list(args)
     fn = getattr(inv, method)
+    # history: the same object may have been used for a write before (whatever it remembers of it must not turn a
+    # later read into a write).  The prior call and its requests are not judged, only what the read-only call sends.
+    prior = None
+    if history:
+        v = ex.fresh_int("prior_value")
+        ex.assume(mk_bool(z3.And(v.t >= 0, v.t <= 100)))
+        if method == "read_setting":
+            row = inv._settings.get(args[0])
+            if row is None or setting_value_kind(row) != "int" or (
+                    family == "ES" and type(row).__name__ in ("ByteH", "ByteL")):
+                # the history variant writes integer-valued settings only (ES one-byte switches need the register
+                # read back with a concrete length: covered by the C17 units over the register-file model)
+                raise interp.PathEnd()
+            prior = ("write_setting", [args[0], v])
+        elif method == "get_grid_export_limit":
+            prior = ("set_grid_export_limit", [v])
+        elif method == "get_ongrid_battery_dod":
+            prior = ("set_ongrid_battery_dod", [v])
+        else:
+            prior = ("write_setting", ["work_mode", v])
+        ex.inputs["prior"] = {"method": prior[0], "args": list(prior[1])}
+        try:
+            run_coro(ex, getattr(inv, prior[0]), *prior[1])
+        except PyRaise:
+            pass
+        g.requests.clear()
+        ex.inputs["script_skip"] = len(g.script)
     ex.path_end_hooks.append(lambda: only_reads(ex))
     if family in ("ET", "DT") and method == "read_settings_data":
         ex.verify_key = f"goodwe.{family.lower()}.{family}.read_settings_data"   # its loop runs under the invariant rule
